@@ -277,7 +277,7 @@ class MembershipProtocol(Entity):
         if target_name is None or target_name not in self._members:
             return []
 
-        self._members[target_name]
+        info = self._members[target_name]
 
         # If we already got an ack, skip
         if target_name not in self._pending_acks:
@@ -309,6 +309,11 @@ class MembershipProtocol(Entity):
             )
             events.append(msg)
             self._indirect_probes_sent += 1
+
+        # The direct probe went unanswered: suspect the target (SWIM's own rule).
+        # The phi detector alone cannot do this for a member we have never
+        # heard from (phi is 0.0 until the first heartbeat is recorded).
+        self._suspect_member(info, self.now.to_seconds())
 
         # Schedule suspicion timeout if still no ack
         suspicion_event = Event(
